@@ -17,6 +17,7 @@ func init() {
 			"C12.follower-path: the in-flight branch waits and performs no upstream call. C12.map-lock: queue.requests only under queue.mu, lookup and insert of loadOrStore in one critical section, lock pairing. C12.write-first: WriteDedupQueue.GetChunk delegates to the read queue only on the not-in-flight edge of its lookup in the write queue.",
 		NotDecided: "linearizability and 'at most one upstream request in flight' as temporal statements over interleavings; these rules decide the per-path protocol each caller follows.",
 		Rules: []rule{
+			{"C12.chunk-data-owned", "a chunk that a de-duplicated write publishes to overlapping readers is built from memory of its own (shared with C03)", 6, func(c *Ctx) { c.chunkDataOwned() }},
 			{"C12.shared-request", "loadOrStore hands leader and followers the same request pointer that is kept in the map", 1, c12SharedRequest},
 			{"C12.deferred-args", "no deferred call is handed an error variable that is assigned only after the defer statement", 1, func(c *Ctx) { c.deferredErrorArgs() }},
 			{"C12.publish-before-close", "results are stored before close(done); wait receives before loading", 2, c12Publish},
